@@ -295,7 +295,23 @@ def c15_streams(tier, rng):
         Stream("random", "adapt", gens.rand_adapt(rng, kinds, n, flavs=("static",)), adapt_nontriv, False,
                "%d seeded random histories on fixed-limit head/tail" % n, adapt_hist, oracles={"bound"},
                project=proj_adapt("bound")),
+        Stream("end-to-end-bound", "e2e", _e2e_bounded(rng, 2500 if q else 80000), lambda c, o: "ok:e2eview" in o, False,
+               "%d seeded random histories of 1-2 stage stacks with a fixed-limit Head or Tail ON TOP, on a plain and a batched subscriber of a real ObservableVector (capacity 1..16, so lag and Reset occur; transactions): neither rebuilt view ever holds more than `limit` items - checked after every single diff of every item and for the initial values" % (2500 if q else 80000),
+               e2e_hist, oracles={"e2ebound"}, project=proj_none),
     ]
+
+
+def _e2e_bounded(rng, n):
+    """e2e cases whose top stage is a fixed-limit head / tail"""
+    out = []
+    while len(out) < n:
+        for c in gens.e2e_cases(rng, 4 * n):
+            top = c.split(" :: ")[0].split(" | ")[-1].strip()
+            if top.startswith(("head:static", "tail:static")):
+                out.append(c)
+                if len(out) >= n:
+                    break
+    return out
 
 
 def e2e_nontriv(case, obs):
@@ -397,8 +413,8 @@ PROPS.update({
     "C14": dict(streams=c14_streams, trusted=ADAPT_TRUST + ["Waker identity checked with Waker::will_wake on the implementation side"],
                 assumptions=["a leaf stream (the vector subscriber's stream, a limit/count stream) that answers Pending keeps the waker it was polled with (Stream contract; C02 for Subscriber, tokio broadcast for the vector subscriber)"],
                 strength="adapters alone and chained: proved for stacks of any height; the leaf streams' waiter lists (tokio broadcast, ReusableBoxFuture) are modelled in C05-C08, not re-proved here",
-                level_text="Coq theorems on the poll-loop model, generic in the adapter: a poll answers Pending only after, in that very call, the inner stream answered Pending and the limit stream answered Pending or its terminal end, with nothing deliverable left (ready buffer and queues empty); and a drained adapter stays Pending until an input has something. For chains (ChainPoll.v: the loop over an arbitrary inner stream, stacks as lists of stages of any state type): a Pending answer of the top of a stack of any height leaves the waker registered with the source and with every limit/count stream of the stack; a stack with nothing deliverable stays Pending and unchanged; over a scripted queue the generic loop equals the scripted loop that the correspondence check compares with the five poll_next implementations call by call; the model's fuel/depth bounds never change an answer. Tied to the crate by comparing the complete poll trace of both inputs on every poll, checking will_wake on every stored waker, and - for chains of 2-3 real adapters - checking after every drain that ends Pending that every leaf holds the waker of that poll; the leaf streams themselves (plain and batched subscriber stream of a real ObservableVector) are run with a counting waker: ready again after Pending only if it fired, a publish or the drop of the vector while Pending fires it before the call returns, a Pending stream whose waker has not fired is still Pending when polled again. On the two real leaves together (FullStack.v): a Pending answer of the adapter leaves the vector's receiver waiting and the limit subscriber in the observable's waker list, so every published message, the drop of the vector, every announced limit change and the closing of the observable wake the task, and a poll always terminates - run against the three real crates in mode full (oracles fullwake, fullstuck).",
-                level_note="Trusted: as C09, plus the Stream contract of the leaves. The unbatched loop is the one modelled generically; the batched loop differs in the item type only and is covered by the scripted-loop theorems."),
+                level_text="Coq theorems on the poll-loop model, generic in the adapter: a poll answers Pending only after, in that very call, the inner stream answered Pending and the limit stream answered Pending or its terminal end, with nothing deliverable left (ready buffer and queues empty); and a drained adapter stays Pending until an input has something. For chains (ChainPoll.v / ChainPollB.v: the unbatched and the batched loop over an arbitrary inner stream, stacks as lists of stages of any state type): a Pending answer of the top of a stack of any height leaves the waker registered with the source and with every limit/count stream of the stack; a stack with nothing deliverable stays Pending and unchanged; over a scripted queue the generic loop equals the scripted loop that the correspondence check compares with the five poll_next implementations call by call; the model's fuel/depth bounds never change an answer. Tied to the crate by comparing the complete poll trace of both inputs on every poll, checking will_wake on every stored waker, and - for chains of 2-3 real adapters - checking after every drain that ends Pending that every leaf holds the waker of that poll; the leaf streams themselves (plain and batched subscriber stream of a real ObservableVector) are run with a counting waker: ready again after Pending only if it fired, a publish or the drop of the vector while Pending fires it before the call returns, a Pending stream whose waker has not fired is still Pending when polled again. On the two real leaves together (FullStack.v): a Pending answer of the adapter leaves the vector's receiver waiting and the limit subscriber in the observable's waker list, so every published message, the drop of the vector, every announced limit change and the closing of the observable wake the task, and a poll always terminates - run against the three real crates in mode full (oracles fullwake, fullstuck).",
+                level_note="Trusted: as C09, plus the Stream contract of the leaves. Both loops (unbatched with its ready buffer, batched without) are modelled generically over an arbitrary inner stream and proved for stacks of any height."),
 })
 
 
@@ -427,7 +443,7 @@ def c12_streams(tier, rng):
                    "the by-itself hand-over of head/tail/skip (static 2, dyninit 2, dynamic) at an arbitrary moment: every applicable source diff on [1,2,3] x stage 0 then not polled / polled once (a second diff of the burst stays parked in its ready buffer) / drained x optional limit change to 0/1/3 again followed by nothing / one poll / a drain; then into_parts, stage 1 (%d kinds) on top, drain, two more source updates with drains; unbatched and batched" % (3 if q else 5),
                    hand_hist, oracles={"stage0", "stage1", "stage2", "app", "nopanic"}),
             Stream("late-handover-twice", "hand", gens.hand_three(q), lambda c, o: o.count("H=[") >= 2, True,
-                   "two by-itself hand-overs in a row, unbatched (adapter over adapter over adapter, evaluated lazily in the model: ChainPoll.gpoll over the poll function of the level below): stage 0 x 7 source updates x not polled / one poll / drained, handed to stage 1 (head dyninit 2 / tail dynamic / skip dyninit 1), a second update x not polled / ONE POLL OF THE TWO-STAGE STACK / drained, handed to stage 2, drained, one more update, drained",
+                   "two by-itself hand-overs in a row, both flavours (adapter over adapter over adapter, evaluated lazily in the model: ChainPoll.gpoll / ChainPollB.gpoll_b over the poll function of the level below): stage 0 x 7 source updates x not polled / one poll / drained, handed to stage 1 (head dyninit 2 / tail dynamic / skip dyninit 1), a second update x not polled / ONE POLL OF THE TWO-STAGE STACK / drained, handed to stage 2, drained, one more update, drained",
                    hand_hist, oracles={"stage0", "stage1", "stage2", "app", "nopanic"}),
             Stream("late-handover-random", "hand", gens.hand_random(rng, 3000 if q else 100000), lambda c, o: "H=[" in o and "H=[]" not in o, False,
                    "%d seeded random histories: stage 0 (any flavour, limit 0..4) driven through source diffs, batches, limit changes, single polls and drains, handed over by itself at a random moment, then the two-stage stack driven further (limit changes of both stages)" % (3000 if q else 100000),
@@ -561,6 +577,10 @@ def ovec_streams(kind, orc, project=None):
                              lambda c, o: True, False,
                              "2 x 4 x %d free-running rounds: the ObservableVector (capacity 1..4) is mutated back to back on another thread (200 operations incl. transactions) while the plain / batched stream is polled, so lag is detected in the middle of a drain (the Lagged arms inside handle_lag and the batched drain loop, which a single-threaded history cannot reach); every delivered diff must be applicable and the replica equals the contents once the writer is done" % r,
                              lambda c, o: c.split()[0], oracles={"racefinal", "raceorder"}))
+        if kind in ("c05", "c07"):
+            st.append(Stream("txn-long", "ovec", gens.ovec_txn_long(5 if q else 6), ovec_nontriv, True,
+                             "every transaction body of 4..%d operations over 7 (two values for position 2, position 0, pop / push at either end) on [1,2,3] that writes some position at least twice with a length change in between, committed, plain and batched subscriber alternately: what a batch that coalesces or reorders recorded diffs gets wrong" % (5 if q else 6),
+                             ovec_hist, oracles=orc, project=project))
         if kind in ("c07", "c17"):
             st.append(Stream("txn-entries", "ovec", gens.ovec_txn_entries(3 if q else 4), ovec_nontriv, True,
                              "every transaction body of <= %d operations over 12 (index-addressed set, entry set, index shifts by remove / pop_front / push_front / insert, entry removals, traversals with set / remove / set-then-remove) on [1,2,3,4], committed or dropped, plain and batched subscriber" % (3 if q else 4),
